@@ -4,9 +4,22 @@
    every byte string by construction; that the model decoders ARE the real ones is the executed
    correspondence on arbitrary bytes (py/props/c16.py: round-trips, mutated encodings, random bytes,
    TLV lengths up to 0xffff).
-   PARTIAL: the NodeInfo round-trip (with the seven-addresses normalisation) is not yet proved as a
-   theorem; it is decided by the correspondence (ni_rt cases) and the python reference. *)
-From VpnModel Require Import Base RangeMatch Conn NodeInfo InitMsg CodecProofs DissectProofs.
+   PARTIAL: that the REAL decoders never panic, hang or allocate beyond the datagram is decided by the
+   correspondence run only (the model decoders are total by construction). *)
+From VpnModel Require Import Base RangeMatch Conn NodeInfo NodeInfoProofs InitMsg CodecProofs DissectProofs.
+
+(* node information decodes to exactly what was encoded up to the normalisation (at most seven addresses per family and entry, IPv6 before IPv4), whatever follows the end marker; ni_wf = what an honest encoder is given (16-byte ids, 6/18-byte addresses, claims of at most 16 address bytes, parts below 64 KiB) *)
+Theorem C16_nodeinfo_roundtrip : forall x tail, ni_wf x -> ni_decode (ni_encode x ++ tail) = Ok (ni_normalise x).
+Proof. exact nodeinfo_roundtrip. Qed.
+
+(* a node-information part with an unknown tag is skipped *)
+Theorem C16_nodeinfo_unknown_skipped : forall f acc tag body r, 5 < tag -> lenN body < 65536 ->
+  dec_parts (S f) acc (enc_part tag body ++ r) = dec_parts f acc r.
+Proof. exact nodeinfo_unknown_skipped. Qed.
+
+(* the node-information decoder has no panic result for any byte string *)
+Theorem C16_nodeinfo_total : forall d, is_panic (ni_decode d) = false.
+Proof. exact nodeinfo_decode_total. Qed.
 
 (* rotation messages decode to what was encoded, whatever follows *)
 Theorem C16_rotation_roundtrip : forall m tail, rot_wf m -> rot_decode (rot_encode m ++ tail) = Some m.
@@ -25,6 +38,12 @@ Theorem C16_init_unknown_skipped : forall fu tag body r f, (5 < tag) -> lenN bod
   parse_parts (S fu) (enc_tlv tag body ++ r) f = parse_parts fu r f.
 Proof. exact pp_unknown. Qed.
 
+Example C16_ex_wf : exists x, ni_wf x /\ ni_peers x <> [] /\ ni_claims x <> [].
+Proof. eexists. split; [exact ni_wf_example|]. split; discriminate. Qed.
+
+Print Assumptions C16_nodeinfo_roundtrip.
+Print Assumptions C16_nodeinfo_unknown_skipped.
+Print Assumptions C16_nodeinfo_total.
 Print Assumptions C16_rotation_roundtrip.
 Print Assumptions C16_init_roundtrip.
 Print Assumptions C16_init_unknown_skipped.
